@@ -50,12 +50,16 @@ var c10Files = map[string]string{
 	"/panic-runtime.jet": `{{ leak := "L" }}{{ range rS }}{{ failR() }}{{ end }}`,
 	"/ok-rich.jet":      `{{ import "/lib.jet" }}{{ range i, v := rS }}{{ yield w() v content }}{{ i }}={{ . }}{{ end }}{{ end }}{{ try }}t{{ end }}`,
 	"/probe-struct.jet": `{{ .X }}/{{ .S }}`,
+	"/range-else.jet":   `{{ range none }}x{{ else }}none;{{ end }}{{ range k, v := mnone }}x{{ else }}mnone;{{ end }}{{ range c := cnone }}x{{ else }}cnone;{{ end }}`,
+	"/probe-nested.jet": `{{ range rows }}[{{ range . }}{{ . }}{{ end }}]{{ end }}|{{ range k, m := maps }}({{ range k2, v := m }}{{ k2 }}{{ v }}{{ end }}){{ end }}`,
 }
 
 func c10Vars(withX bool) func() jet.VarMap {
 	return func() jet.VarMap {
 		v := jet.VarMap{}
 		v.Set("rS", []string{"e1", "e2"})
+		v.Set("none", []string{}).Set("mnone", map[string]int{}).Set("cnone", strChan())
+		v.Set("rows", [][]int{{1, 2}, {3, 4}, {5, 6}}).Set("maps", []map[string]int{{"a": 1}, {"b": 2}, {"c": 3}})
 		v.Set("failE", func() string { panic(errors.New("boom")) })
 		v.Set("failS", func() string { panic("string panic") })
 		v.Set("failR", func() string { var m map[string]int; m["x"] = 1; return "" })
@@ -74,6 +78,8 @@ var c10Execs = []c10Exec{
 	{"probe-block", "/probe-block.jet", nil, nil, true},
 	{"probe-writer", "/probe-writer.jet", nil, nil, true},
 	{"probe-struct", "/probe-struct.jet", c10Vars(false), pt{3, "s"}, true},
+	{"range-else", "/range-else.jet", c10Vars(false), "D", false},
+	{"probe-nested", "/probe-nested.jet", c10Vars(false), "D", true},
 	{"fail-top", "/fail-top.jet", c10Vars(false), "D", false},
 	{"fail-range", "/fail-range.jet", c10Vars(false), "D", false},
 	{"fail-let", "/fail-let.jet", c10Vars(false), "D", false},
